@@ -6,6 +6,8 @@
 //!   `L<v4>,<v6>|I<id>:<asn|->,…|R<rec>;…|W<mui>,…|P<path text>|X<fam>/<len>/<bits> or bad|S<pfx>,…~<pfx>,…|Q<query string>`
 //!   S = what the unicast ~ multicast store (the rotonda-store dependency) itself reported as the
 //!   more-specific prefixes of X (an input of the model only under the variant `more=as-observed`)
+//!   W may carry `;<u|m><fam>/<len>/<bits>,…` = record-less prefix slots of the unicast / multicast store
+//!   (made by a per-prefix withdrawal of a prefix the store never held)
 //!   rec = `<u|m>,<fam>/<len>/<bits>,<mui>,<A|W>,<aid>,<path>,<communities>`
 //!   path = `-` (no AS_PATH) | `e` (empty) | hops joined by `.`: `n<asn>` | `s` (an AS_SET hop)
 //!   communities = `-` | items joined by `.`: `c<asn>:<tag>` | `l<g>:<l1>:<l2>`
@@ -18,7 +20,9 @@
 use std::collections::BTreeSet;
 use std::time::Instant;
 
+use rotonda::payload::Update;
 use rotonda::verif::ribq::RibQueryFixture;
+use verif_harness::rib as hr;
 use verif_harness::{join, parse_args, rng::Rng, Recorder};
 
 const API: &str = "/prefixes/";
@@ -80,87 +84,114 @@ enum Comm { Std(u16, u16), Large(u32, u32, u32) }
 struct Rec { mc: bool, pfx: Pfx, mui: u32, active: bool, aid: u32, path: Option<Vec<Hop>>, comms: Vec<Comm> }
 
 #[derive(Clone, Debug)]
-struct Pop { limits: (u8, u8), ingress: Vec<(u32, Option<u32>)>, recs: Vec<Rec>, wd: Vec<u32> }
+struct Pop { limits: (u8, u8), ingress: Vec<(u32, Option<u32>)>, recs: Vec<Rec>, wd: Vec<u32>, empties: Vec<(bool, Pfx)> }
 
 impl Rec {
     fn show(&self) -> String {
-        let path = match &self.path {
-            None => "-".to_string(),
-            Some(h) if h.is_empty() => "e".to_string(),
-            Some(h) => join(h.iter().map(|h| match h { Hop::Asn(a) => format!("n{a}"), Hop::Set => "s".into() }), "."),
-        };
-        let comms = if self.comms.is_empty() { "-".to_string() } else {
-            join(self.comms.iter().map(|c| match c { Comm::Std(a, b) => format!("c{a}:{b}"), Comm::Large(a, b, c) => format!("l{a}:{b}:{c}") }), ".")
-        };
+        let path = show_path(&self.path);
+        let comms = show_comms(&self.comms);
         format!("{},{},{},{},{},{},{}", if self.mc { "m" } else { "u" }, self.pfx.show(), self.mui, if self.active { "A" } else { "W" }, self.aid, path, comms)
     }
     fn parse(s: &str) -> Option<Rec> {
         let f: Vec<&str> = s.split(',').collect();
         if f.len() != 7 { return None; }
-        let path = match f[5] {
-            "-" => None,
-            "e" => Some(vec![]),
-            t => Some(t.split('.').map(|h| if h == "s" { Some(Hop::Set) } else { h.strip_prefix('n')?.parse().ok().map(Hop::Asn) }).collect::<Option<Vec<_>>>()?),
-        };
-        let comms = if f[6] == "-" { vec![] } else {
-            f[6].split('.').map(|c| {
-                let n: Vec<&str> = c[1..].split(':').collect();
-                match (&c[..1], n.len()) {
-                    ("c", 2) => Some(Comm::Std(n[0].parse().ok()?, n[1].parse().ok()?)),
-                    ("l", 3) => Some(Comm::Large(n[0].parse().ok()?, n[1].parse().ok()?, n[2].parse().ok()?)),
-                    _ => None,
-                }
-            }).collect::<Option<Vec<_>>>()?
-        };
+        let path = parse_path(f[5])?;
+        let comms = parse_comms(f[6])?;
         Some(Rec { mc: f[0] == "m", pfx: Pfx::parse_show(f[1])?, mui: f[2].parse().ok()?, active: f[3] == "A", aid: f[4].parse().ok()?, path, comms })
     }
     /// Raw BGP path attributes (4-octet AS): ORIGIN, AS_PATH, NEXT_HOP, MED (= aid), COMMUNITIES, LARGE_COMMUNITIES.
     fn raw_attrs(&self) -> Vec<u8> {
         let mut v = vec![0x40, 1, 1, 0];
         if let Some(hops) = &self.path {
-            let mut segs: Vec<u8> = vec![];
-            let mut i = 0;
-            while i < hops.len() {
-                match &hops[i] {
-                    Hop::Set => { segs.extend([1u8, 2]); segs.extend(64999u32.to_be_bytes()); segs.extend(64998u32.to_be_bytes()); i += 1; }
-                    Hop::Asn(_) => {
-                        let mut run = vec![];
-                        while i < hops.len() { if let Hop::Asn(a) = hops[i] { run.push(a); i += 1; } else { break; } }
-                        segs.extend([2u8, run.len() as u8]);
-                        for a in run { segs.extend(a.to_be_bytes()); }
-                    }
-                }
-            }
+            let segs = as_path_segments(hops);
             v.extend([0x40, 2, segs.len() as u8]);
             v.extend(segs);
         }
         v.extend([0x40, 3, 4, 192, 0, 2, 1]);
         v.extend([0x80, 4, 4]);
         v.extend(self.aid.to_be_bytes());
-        let std: Vec<&Comm> = self.comms.iter().filter(|c| matches!(c, Comm::Std(..))).collect();
-        if !std.is_empty() {
-            v.extend([0xC0, 8, (4 * std.len()) as u8]);
-            for c in std { if let Comm::Std(a, b) = c { v.extend(a.to_be_bytes()); v.extend(b.to_be_bytes()); } }
-        }
-        let large: Vec<&Comm> = self.comms.iter().filter(|c| matches!(c, Comm::Large(..))).collect();
-        if !large.is_empty() {
-            v.extend([0xC0, 32, (12 * large.len()) as u8]);
-            for c in large { if let Comm::Large(a, b, d) = c { v.extend(a.to_be_bytes()); v.extend(b.to_be_bytes()); v.extend(d.to_be_bytes()); } }
-        }
+        v.extend(community_attrs(&self.comms));
         v
     }
 }
 
+/// The value of an AS_PATH attribute (4-octet ASNs): runs of plain hops as AS_SEQUENCE segments, an
+/// AS_SET hop as a two-member AS_SET segment.
+fn as_path_segments(hops: &[Hop]) -> Vec<u8> {
+    let mut segs: Vec<u8> = vec![];
+    let mut i = 0;
+    while i < hops.len() {
+        match &hops[i] {
+            Hop::Set => { segs.extend([1u8, 2]); segs.extend(64999u32.to_be_bytes()); segs.extend(64998u32.to_be_bytes()); i += 1; }
+            Hop::Asn(_) => {
+                let mut run = vec![];
+                while i < hops.len() { if let Hop::Asn(a) = hops[i] { run.push(a); i += 1; } else { break; } }
+                segs.extend([2u8, run.len() as u8]);
+                for a in run { segs.extend(a.to_be_bytes()); }
+            }
+        }
+    }
+    segs
+}
+
+/// Encoded COMMUNITIES and LARGE_COMMUNITIES attributes (absent when there is none of the kind).
+fn community_attrs(comms: &[Comm]) -> Vec<u8> {
+    let mut v = vec![];
+    let std: Vec<&Comm> = comms.iter().filter(|c| matches!(c, Comm::Std(..))).collect();
+    if !std.is_empty() {
+        v.extend([0xC0, 8, (4 * std.len()) as u8]);
+        for c in std { if let Comm::Std(a, b) = c { v.extend(a.to_be_bytes()); v.extend(b.to_be_bytes()); } }
+    }
+    let large: Vec<&Comm> = comms.iter().filter(|c| matches!(c, Comm::Large(..))).collect();
+    if !large.is_empty() {
+        v.extend([0xC0, 32, (12 * large.len()) as u8]);
+        for c in large { if let Comm::Large(a, b, d) = c { v.extend(a.to_be_bytes()); v.extend(b.to_be_bytes()); v.extend(d.to_be_bytes()); } }
+    }
+    v
+}
+
+fn show_path(p: &Option<Vec<Hop>>) -> String {
+    match p {
+        None => "-".to_string(),
+        Some(h) if h.is_empty() => "e".to_string(),
+        Some(h) => join(h.iter().map(|h| match h { Hop::Asn(a) => format!("n{a}"), Hop::Set => "s".into() }), "."),
+    }
+}
+fn show_comms(c: &[Comm]) -> String {
+    if c.is_empty() { "-".to_string() } else { join(c.iter().map(|c| match c { Comm::Std(a, b) => format!("c{a}:{b}"), Comm::Large(a, b, c) => format!("l{a}:{b}:{c}") }), ".") }
+}
+fn parse_path(t: &str) -> Option<Option<Vec<Hop>>> {
+    Some(match t {
+        "-" => None,
+        "e" => Some(vec![]),
+        t => Some(t.split('.').map(|h| if h == "s" { Some(Hop::Set) } else { h.strip_prefix('n')?.parse().ok().map(Hop::Asn) }).collect::<Option<Vec<_>>>()?),
+    })
+}
+fn parse_comms(t: &str) -> Option<Vec<Comm>> {
+    if t == "-" { return Some(vec![]); }
+    t.split('.').map(|c| {
+        let n: Vec<&str> = c.get(1..)?.split(':').collect();
+        match (c.get(..1)?, n.len()) {
+            ("c", 2) => Some(Comm::Std(n[0].parse().ok()?, n[1].parse().ok()?)),
+            ("l", 3) => Some(Comm::Large(n[0].parse().ok()?, n[1].parse().ok()?, n[2].parse().ok()?)),
+            _ => None,
+        }
+    }).collect::<Option<Vec<_>>>()
+}
+
 impl Pop {
     fn show(&self) -> String {
-        format!("L{},{}|I{}|R{}|W{}", self.limits.0, self.limits.1,
+        format!("L{},{}|I{}|R{}|W{}{}", self.limits.0, self.limits.1,
             join(self.ingress.iter().map(|(i, a)| format!("{}:{}", i, a.map_or("-".to_string(), |a| a.to_string()))), ","),
-            join(self.recs.iter().map(|r| r.show()), ";"), join(self.wd.iter(), ","))
+            join(self.recs.iter().map(|r| r.show()), ";"), join(self.wd.iter(), ","),
+            if self.empties.is_empty() { String::new() } else { format!(";{}", join(self.empties.iter().map(|(mc, p)| format!("{}{}", if *mc { 'm' } else { 'u' }, p.show())), ",")) })
     }
     fn parse(l: &str, i: &str, r: &str, w: &str) -> Option<Pop> {
         let (a, b) = l.strip_prefix('L')?.split_once(',')?;
         let i = i.strip_prefix('I')?; let r = r.strip_prefix('R')?; let w = w.strip_prefix('W')?;
+        let (w, slots) = w.split_once(';').unwrap_or((w, ""));
         Some(Pop {
+            empties: if slots.is_empty() { vec![] } else { slots.split(',').map(|t| Some((t.starts_with('m'), Pfx::parse_show(t.get(1..)?)?))).collect::<Option<Vec<_>>>()? },
             limits: (a.parse().ok()?, b.parse().ok()?),
             ingress: if i.is_empty() { vec![] } else { i.split(',').map(|e| { let (id, a) = e.split_once(':')?; Some((id.parse().ok()?, if a == "-" { None } else { Some(a.parse().ok()?) })) }).collect::<Option<Vec<_>>>()? },
             recs: if r.is_empty() { vec![] } else { r.split(';').map(Rec::parse).collect::<Option<Vec<_>>>()? },
@@ -179,6 +210,8 @@ impl Pop {
         for (t, r) in self.recs.iter().enumerate() {
             if !r.active { f.insert(r.pfx.to_inetnum(), r.mc, r.mui, false, vec![], (self.recs.len() + t) as u64)?; }
         }
+        // a per-prefix withdrawal of a prefix the store does not hold: the store answers PrefixNotFound and keeps an empty slot
+        for (t, (mc, p)) in self.empties.iter().enumerate() { let _ = f.insert(p.to_inetnum(), *mc, 1, false, vec![], (2 * self.recs.len() + t) as u64); }
         for m in &self.wd { f.withdraw_ingress(*m); }
         Ok(f)
     }
@@ -310,11 +343,11 @@ fn doc_parse(query: &str) -> Option<Doc> {
 }
 
 #[derive(Clone, Copy, Default, Debug)]
-struct Quirks { community_dead: bool, less_skips_zero: bool, mcast_fallback: bool, more_observed: bool }
+struct Quirks { community_dead: bool, less_skips_zero: bool, mcast_fallback: bool, more_observed: bool, less_stops: bool }
 /// The raw more-specifics answers of the unicast and the multicast store.
 type StoreMore = (Vec<Pfx>, Vec<Pfx>);
-/// Bit set of the deviations (community, lesszero, mcast) confirmed on this tree by witness replay.
-static ADMISSIBLE: std::sync::atomic::AtomicU8 = std::sync::atomic::AtomicU8::new(7);
+/// Bit set of the deviations (community, lesszero, mcast, lessstop) confirmed on this tree by witness replay.
+static ADMISSIBLE: std::sync::atomic::AtomicU8 = std::sync::atomic::AtomicU8::new(15);
 
 fn kind_matches(pop: &Pop, r: &Rec, k: &Kind, q: Quirks) -> bool {
     match k {
@@ -345,7 +378,9 @@ fn expected(pop: &Pop, qp: &Pfx, d: &Doc, q: Quirks, sm: &StoreMore) -> (BTreeSe
     } else { pop.recs.iter().collect() };
     let ent = |r: &&Rec| (r.pfx, r.mui, pop.status(r), r.aid);
     let data = visible.iter().filter(|r| r.pfx == *qp && passes(pop, r, d, q)).map(ent).collect();
-    let less = d.less.then(|| visible.iter().filter(|r| r.pfx != *qp && r.pfx.covers(qp) && !(q.less_skips_zero && r.pfx.len == 0) && passes(pop, r, d, q)).map(ent).collect());
+    // the store's walk from the queried prefix towards shorter ones ends at a record-less slot
+    let cut_short = |r: &Rec| pop.empties.iter().any(|(mc, e)| *mc == r.mc && *e != *qp && e.covers(qp) && r.pfx.len < e.len);
+    let less = d.less.then(|| visible.iter().filter(|r| r.pfx != *qp && r.pfx.covers(qp) && !(q.less_skips_zero && r.pfx.len == 0) && !(q.less_stops && cut_short(r)) && passes(pop, r, d, q)).map(ent).collect());
     let more = d.more.then(|| visible.iter().filter(|r| (if q.more_observed { (if r.mc { &sm.1 } else { &sm.0 }).contains(&r.pfx) } else { r.pfx != *qp && qp.covers(&r.pfx) }) && passes(pop, r, d, q)).map(ent).collect());
     (data, less, more)
 }
@@ -387,15 +422,15 @@ fn judge(pop: &Pop, path: &str, query: &str, obs: &Obs, sm: &StoreMore) -> Strin
                 let contract: BTreeSet<(bool, Pfx)> = pop.recs.iter().filter(|r| r.pfx != qp && qp.covers(&r.pfx)).map(|r| (r.mc, r.pfx)).collect();
                 let observed: BTreeSet<(bool, Pfx)> = sm.0.iter().map(|p| (false, *p)).chain(sm.1.iter().map(|p| (true, *p))).collect();
                 let more_active = d.more && contract != observed;
-                let names = ["community-filter:never-matches", "less-specifics:default-route-omitted", "multicast:hidden-unless-unicast-answer-empty", more_name];
+                let names = ["community-filter:never-matches", "less-specifics:default-route-omitted", "multicast:hidden-unless-unicast-answer-empty", "less-specifics:stops-at-empty-prefix-slot", more_name];
                 let mut best: Option<Vec<usize>> = None;
-                for mask in 0u8..8 {
+                for mask in 0u8..16 {
                     if mask & !adm != 0 { continue; }
                     if mask == 0 && !more_active { continue; }
-                    let q = Quirks { community_dead: mask & 1 != 0, less_skips_zero: mask & 2 != 0, mcast_fallback: mask & 4 != 0, more_observed: more_active };
+                    let q = Quirks { community_dead: mask & 1 != 0, less_skips_zero: mask & 2 != 0, mcast_fallback: mask & 4 != 0, less_stops: mask & 8 != 0, more_observed: more_active };
                     if got == expected(pop, &qp, d, q, sm) {
-                        let mut set: Vec<usize> = (0..3).filter(|i| mask & (1 << i) != 0).collect();
-                        if more_active { set.push(3); }
+                        let mut set: Vec<usize> = (0..4).filter(|i| mask & (1 << i) != 0).collect();
+                        if more_active { set.push(4); }
                         if best.as_ref().is_none_or(|b| set.len() < b.len()) { best = Some(set); }
                     }
                 }
@@ -487,7 +522,22 @@ impl Gen {
         }
         let mut wd = vec![];
         for m in &muis { if self.rng.chance(1, 8) { wd.push(*m); } }
-        (Pop { limits, ingress, recs, wd }, bases)
+        // record-less slots: a covering prefix of something stored (or a fresh one) that is only ever withdrawn
+        let mut empties: Vec<(bool, Pfx)> = vec![];
+        if self.rng.chance(1, 4) {
+            for _ in 0..self.rng.range(1, 2) {
+                let (mc, p) = if !recs.is_empty() && self.rng.chance(3, 4) {
+                    let r = self.rng.pick(&recs).clone();
+                    if r.pfx.len < 2 { continue; }
+                    let k = self.rng.range(1, (r.pfx.len - 1).min(9) as u64) as u8;
+                    (r.mc, Pfx { fam: r.pfx.fam, len: r.pfx.len - k, bits: r.pfx.bits >> k })
+                } else { let fam = if v6 { 6 } else { 4 }; (self.rng.below(10) < mcast_share, self.pfx_near(fam, bases[(fam == 6) as usize])) };
+                if self.narrow && (p.fam == 6 || (1..=4).contains(&p.len)) { continue; }
+                if recs.iter().any(|r| r.mc == mc && r.pfx == p) || empties.contains(&(mc, p)) { continue; }
+                empties.push((mc, p));
+            }
+        }
+        (Pop { limits, ingress, recs, wd, empties }, bases)
     }
     fn filter_param(&mut self, pop: &Pop) -> String {
         let mode = if self.rng.chance(1, 2) { "select" } else { "discard" };
@@ -553,6 +603,205 @@ impl Gen {
     }
 }
 
+
+// ---------------------------------------------------- H stream (RibBridge): history -> HTTP
+//
+// One case = one C01-style history (BGP UPDATEs of 1-3 sessions incl. framing-damaged ones,
+// session-level withdrawals `Withdraw(id, None)`, `WithdrawBulk(ids)`, `Withdraw(id, Some(afi/safi))`)
+// fed through the real BGP `Processor::process_update` and the real `RibUnitRunner::process_update`,
+// then one GET through a real `PrefixesApi` serving that runner's `Rib`. Case line:
+//   `H<v4>,<v6>|I<id>:<asn|->,…|A<aid>~<path>~<communities>;…|E<event> <event> …|P…|X…|S…~…|Q…`
+//   (events = tokens of `verif_harness::rib::Ev`; A = what attribute id `aid` stands for; P X S Q as above).
+// The model side is the composed Lean function `Bridge.httpOfHistory` (`Model/RibBridge.lean`).
+// Oracle (no Lean): the history is replayed by a HashMap replay into the population the RIB should hold
+// (with the session-withdrawal / overlap semantics detected on this tree by witness replay: C01-C03 judge
+// those, not this stream) and the HTTP answer is judged against that population by C11's own oracle.
+
+#[derive(Clone, Debug)]
+struct AttrDef { aid: u32, path: Option<Vec<Hop>>, comms: Vec<Comm> }
+
+#[derive(Clone, Debug)]
+struct Hist { limits: (u8, u8), ingress: Vec<(u32, Option<u32>)>, attrs: Vec<AttrDef>, evs: Vec<hr::Ev> }
+
+/// RIB-side semantics detected on this tree (both are C01 / C03 defect sites).
+#[derive(Clone, Copy, Debug)]
+struct RibSem { overlap_withdraws: bool, sticky_down: bool }
+
+fn conv_pfx(p: &hr::Pfx) -> Pfx { Pfx { fam: if p.v6 { 6 } else { 4 }, len: p.len, bits: p.bits } }
+
+impl Hist {
+    fn show(&self) -> String {
+        format!("H{},{}|I{}|A{}|E{}", self.limits.0, self.limits.1,
+            join(self.ingress.iter().map(|(i, a)| format!("{}:{}", i, a.map_or("-".to_string(), |a| a.to_string()))), ","),
+            join(self.attrs.iter().map(|d| format!("{}~{}~{}", d.aid, show_path(&d.path), show_comms(&d.comms))), ";"),
+            join(self.evs.iter().map(|e| e.show()), " "))
+    }
+    fn parse(l: &str, i: &str, a: &str, e: &str) -> Option<Hist> {
+        let (v4, v6) = l.strip_prefix('H')?.split_once(',')?;
+        let i = i.strip_prefix('I')?; let a = a.strip_prefix('A')?; let e = e.strip_prefix('E')?;
+        Some(Hist {
+            limits: (v4.parse().ok()?, v6.parse().ok()?),
+            ingress: if i.is_empty() { vec![] } else { i.split(',').map(|e| { let (id, a) = e.split_once(':')?; Some((id.parse().ok()?, if a == "-" { None } else { Some(a.parse().ok()?) })) }).collect::<Option<Vec<_>>>()? },
+            attrs: if a.is_empty() { vec![] } else { a.split(';').map(|d| { let f: Vec<&str> = d.split('~').collect(); if f.len() != 3 { return None; } Some(AttrDef { aid: f[0].parse().ok()?, path: parse_path(f[1])?, comms: parse_comms(f[2])? }) }).collect::<Option<Vec<_>>>()? },
+            evs: e.split_whitespace().map(hr::Ev::parse).collect::<Option<Vec<_>>>()?,
+        })
+    }
+    fn def(&self, aid: u32) -> AttrDef { self.attrs.iter().find(|d| d.aid == aid).cloned().unwrap_or(AttrDef { aid, path: Some(vec![]), comms: vec![] }) }
+
+    /// Feed the history to the real code; returns the runner (kept alive) and a `PrefixesApi` fixture on its `Rib`.
+    fn build(&self, notes: &mut Vec<String>) -> Result<(hr::RealRib, RibQueryFixture), String> {
+        let rib = hr::RealRib::new();
+        let mut bgp = hr::BgpSource::new();
+        for e in &self.evs {
+            let r = match e {
+                hr::Ev::Upd(m, u) => {
+                    let d = self.def(u.attr);
+                    let (pdu, _) = hr::encode_update_with(u, &d.path.as_deref().map(as_path_segments).unwrap_or_default(), &community_attrs(&d.comms))?;
+                    match bgp.ingest(&pdu, *m) {
+                        hr::Ingested::Update(up) => { if u.corrupt != 0 { notes.push("malformed-accepted".into()); } rib.process(up) }
+                        hr::Ingested::Rejected(_) => { notes.push(if u.corrupt != 0 { "malformed-rejected".into() } else { "wellformed-not-forwarded".into() }); Ok(()) }
+                    }
+                }
+                hr::Ev::Down(m) => rib.process(Update::Withdraw(*m, None)),
+                hr::Ev::DownBulk(ms) => rib.process(Update::WithdrawBulk(ms.clone().into())),
+                hr::Ev::DownAf(m, af) => rib.process(Update::Withdraw(*m, Some(hr::afisafi(af)))),
+            };
+            if let Err(p) = r { return Err(format!("panic-in-process-update {p}")); }
+        }
+        let fx = RibQueryFixture::around(rotonda::verif::rib::rib(&rib.runner), API, self.limits.0, self.limits.1);
+        for (id, asn) in &self.ingress { fx.set_ingress(*id, *asn); }
+        Ok((rib, fx))
+    }
+
+    /// The population the RIB should hold after the history (independent HashMap replay).
+    fn expected(&self, sem: RibSem) -> Pop {
+        let mut keys: Vec<(bool, hr::Pfx, u32)> = vec![];
+        let mut tab: std::collections::HashMap<(bool, hr::Pfx, u32), (bool, u32)> = Default::default();
+        let mut marks: BTreeSet<(bool, bool, u32)> = BTreeSet::new();
+        // prefixes named by a withdrawal: the store keeps a slot for them even if it never held a record
+        let mut slots: BTreeSet<(bool, hr::Pfx)> = BTreeSet::new();
+        let table = |s: hr::Safi| match s { hr::Safi::U => Some(false), hr::Safi::M => Some(true), hr::Safi::X => None };
+        let mut session_down = |tab: &mut std::collections::HashMap<(bool, hr::Pfx, u32), (bool, u32)>, m: u32, trees: &[(bool, bool)]| {
+            for (mc, v6) in trees {
+                if sem.sticky_down { marks.insert((*mc, *v6, m)); }
+                else { for (k, v) in tab.iter_mut() { if k.2 == m && k.0 == *mc && k.1.v6 == *v6 { v.0 = false; } } }
+            }
+        };
+        const ALL: [(bool, bool); 4] = [(false, false), (false, true), (true, false), (true, true)];
+        for e in &self.evs {
+            match e {
+                hr::Ev::Upd(_, u) if u.corrupt != 0 => {}
+                hr::Ev::Upd(m, u) => {
+                    for n in &u.ann { if let Some(mc) = table(n.safi) { let k = (mc, n.pfx, *m); if !tab.contains_key(&k) { keys.push(k); } tab.insert(k, (true, u.attr)); } }
+                    for n in &u.wd { if let Some(mc) = table(n.safi) {
+                        slots.insert((mc, n.pfx));
+                        if u.ann.contains(n) && !sem.overlap_withdraws { continue; }
+                        if let Some(v) = tab.get_mut(&(mc, n.pfx, *m)) { v.0 = false; }
+                    } }
+                }
+                hr::Ev::Down(m) => session_down(&mut tab, *m, &ALL),
+                hr::Ev::DownBulk(ms) => for m in ms { session_down(&mut tab, *m, &ALL) },
+                hr::Ev::DownAf(m, af) => match af.as_str() { "v4u" => session_down(&mut tab, *m, &[(false, false)]), "v6u" => session_down(&mut tab, *m, &[(false, true)]), "v4m" => session_down(&mut tab, *m, &[(true, false)]), "v6m" => session_down(&mut tab, *m, &[(true, true)]), _ => {} },
+            }
+        }
+        let recs = keys.iter().map(|k| { let (act, aid) = tab[k]; let d = self.def(aid);
+            Rec { mc: k.0, pfx: conv_pfx(&k.1), mui: k.2, active: act && !marks.contains(&(k.0, k.1.v6, k.2)), aid, path: d.path, comms: d.comms } }).collect();
+        let empties = slots.iter().filter(|(mc, p)| !keys.iter().any(|k| k.0 == *mc && k.1 == *p)).map(|(mc, p)| (*mc, conv_pfx(p))).collect();
+        Pop { limits: self.limits, ingress: self.ingress.clone(), recs, wd: vec![], empties }
+    }
+}
+
+fn run_h_case(rt: &tokio::runtime::Runtime, rec: &mut Recorder, h: &Hist, exp: &Pop, fx: &RibQueryFixture, path: &str, query: &str) -> Obs {
+    let obs = observe(rt, fx, path, query);
+    let qp = Pfx::parse_text(path);
+    let sm = store_more(fx, qp);
+    let x = qp.map_or("bad".to_string(), |p| p.show());
+    let case = format!("{}|P{}|X{}|S{}~{}|Q{}", h.show(), path, x, join(sm.0.iter().map(|p| p.show()), ","), join(sm.1.iter().map(|p| p.show()), ","), query);
+    let oracle = judge(exp, path, query, &obs, &sm);
+    let nontrivial = match &obs { Obs::Json { data, less, more, .. } => !data.is_empty() || less.as_ref().is_some_and(|s| !s.is_empty()) || more.as_ref().is_some_and(|s| !s.is_empty()), _ => false };
+    rec.bump("h.cases");
+    rec.bump(match &obs { Obs::None => "h.resp.none", Obs::Status(..) => "h.resp.400", Obs::Dump => "h.resp.dump", Obs::Json { .. } => "h.resp.json", Obs::Odd(_) => "h.resp.odd" });
+    if let Obs::Json { data, less, more, .. } = &obs {
+        if !data.is_empty() { rec.bump("h.json.data-nonempty"); }
+        if data.iter().any(|e| !e.2) { rec.bump("h.json.data-with-withdrawn-entry"); }
+        if less.as_ref().is_some_and(|s| !s.is_empty()) { rec.bump("h.json.less-nonempty"); }
+        if more.as_ref().is_some_and(|s| !s.is_empty()) { rec.bump("h.json.more-nonempty"); }
+    }
+    if query.contains("select") || query.contains("discard") { rec.bump("h.query.with-filters"); }
+    rec.case(case, obs.show(), oracle, nontrivial);
+    obs
+}
+
+fn replay_h_line(rt: &tokio::runtime::Runtime, rec: &mut Recorder, line: &str, sem: RibSem) -> Option<Obs> {
+    let f: Vec<&str> = line.splitn(8, '|').collect();
+    if f.len() != 8 { return None; }
+    let h = Hist::parse(f[0], f[1], f[2], f[3])?;
+    let path = f[4].strip_prefix('P')?;
+    let query = f[7].strip_prefix('Q')?;
+    let mut notes = vec![];
+    let (_rib, fx) = h.build(&mut notes).ok()?;
+    Some(run_h_case(rt, rec, &h, &h.expected(sem), &fx, path, query))
+}
+
+// Witnesses of `C01_overlap_counterexample` and `C03_counterexample`, seen through HTTP (`Bridge_C03_http`).
+const W_H_OVERLAP: &str = "H8,19|I|A7~e~-|Eu:2:7:u4.24.655617:u4.24.655617:c|P10.1.1.0/24|X4/24/655617|S~|Q";
+const W_H_FLAP: &str = "H8,19|I|A5~e~-;7~n1~-|Eu:2:5:u4.24.655617:-:c d:2 u:2:7:u4.24.655617:-:c|P10.1.1.0/24|X4/24/655617|S~|Q";
+
+/// `C11_lessstop_counterexample` as a history: 10.0.0.0/8 announced, 10.1.0.0/16 withdrawn without ever having been announced.
+const W_H_LESSSTOP: &str = "H8,19|I|A1~n1~-|Eu:2:1:u4.8.10:-:c u:2:1:-:u4.16.2561:c|P10.1.1.0/24|X4/24/655617|S~|Qinclude=lessSpecifics";
+
+/// Is the single `data` entry of the witness reported active? (`None`: the witness did not run.)
+fn witness_active(rt: &tokio::runtime::Runtime, line: &str) -> Option<bool> {
+    let f: Vec<&str> = line.splitn(8, '|').collect();
+    let h = Hist::parse(f[0], f[1], f[2], f[3])?;
+    let (_rib, fx) = h.build(&mut vec![]).ok()?;
+    match observe(rt, &fx, f[4].strip_prefix('P')?, "") { Obs::Json { data, .. } => data.iter().next().map(|e| e.2), _ => None }
+}
+
+impl Gen {
+    fn history(&mut self, rec: &mut Recorder) -> Hist {
+        let pool: Vec<hr::Pfx> = hr::pool().into_iter().filter(|p| !(self.narrow && p.v6)).collect();
+        let limits = match self.rng.below(4) { 0 => (self.rng.range(0, 32) as u8, self.rng.range(0, 128) as u8), _ => (8, 19) };
+        let muis: Vec<u32> = (2..2 + self.rng.range(1, 3) as u32).collect();
+        let mut ingress = vec![];
+        for m in &muis { if self.rng.chance(4, 5) { let a = if self.rng.chance(4, 5) { Some(*self.rng.pick(&[65001u32, 65002, 3])) } else { None }; ingress.push((*m, a)); } }
+        let attrs: Vec<AttrDef> = (1..=6u32).map(|aid| { let path = match self.path() { None => Some(vec![]), p => p }; AttrDef { aid, path, comms: (0..self.rng.below(3)).map(|_| self.comm()).collect() } }).collect();
+        let focus: Vec<hr::Pfx> = (0..self.rng.range(2, 5)).map(|_| *self.rng.pick(&pool)).collect();
+        let n = if self.rng.chance(1, 6) { self.rng.range(12, 30) } else { self.rng.range(1, 10) };
+        let mut evs = vec![];
+        for _ in 0..n {
+            let m = *self.rng.pick(&muis);
+            match self.rng.below(20) {
+                0..=1 => { evs.push(hr::Ev::Down(m)); rec.bump("h.ev.withdraw-session"); }
+                2 => { let k = self.rng.range(0, 2) as usize; let ms: Vec<u32> = (0..k).map(|_| *self.rng.pick(&muis)).collect(); evs.push(hr::Ev::DownBulk(ms)); rec.bump("h.ev.withdraw-bulk"); }
+                3 => { evs.push(hr::Ev::DownAf(m, self.rng.pick(&["v4u", "v6u", "v4m", "v6m"]).to_string())); rec.bump("h.ev.withdraw-afisafi"); }
+                _ => {
+                    // one MP family per half: a half is drawn from one (family, safi)
+                    let mut half = |g: &mut Gen, k: u64| -> Vec<hr::Nlri> {
+                        if k == 0 { return vec![]; }
+                        let v6 = !g.narrow && g.rng.chance(1, 3);
+                        let safi = match g.rng.below(20) { 0..=13 => hr::Safi::U, 14..=18 => hr::Safi::M, _ => hr::Safi::X };
+                        let mut c: Vec<&hr::Pfx> = focus.iter().filter(|p| p.v6 == v6).collect();
+                        if c.is_empty() || g.rng.chance(1, 6) { c = pool.iter().filter(|p| p.v6 == v6).collect(); }
+                        (0..k).map(|_| hr::Nlri { pfx: **g.rng.pick(&c), safi }).collect()
+                    };
+                    let (na, nw) = match self.rng.below(10) { 0..=5 => (self.rng.range(1, 3), 0), 6..=7 => (0, self.rng.range(1, 2)), 8 => (self.rng.range(1, 2), self.rng.range(1, 2)), _ => (0, 0) };
+                    let ann = half(self, na);
+                    let mut wd = half(self, nw);
+                    if !ann.is_empty() && !wd.is_empty() && self.rng.chance(1, 2) { wd = vec![*self.rng.pick(&ann)]; }
+                    let mut u = hr::Upd { attr: self.rng.range(1, 6) as u32, ann, wd, mp4: self.rng.chance(1, 4), corrupt: 0 };
+                    if hr::encode_update(&u).is_err() { u.wd.clear(); }
+                    if self.rng.chance(1, 12) { let k = self.rng.range(1, 4) as u8; if hr::corrupt_applicable(&u, k) { u.corrupt = k; } }
+                    rec.bump(if u.corrupt != 0 { "h.ev.update-malformed" } else if u.ann.iter().any(|a| u.wd.contains(a)) { "h.ev.update-overlap" } else if u.ann.is_empty() && u.wd.is_empty() { "h.ev.update-empty" } else if u.ann.is_empty() { "h.ev.update-withdraw-only" } else if u.wd.is_empty() { "h.ev.update-announce-only" } else { "h.ev.update-both" });
+                    for nl in u.ann.iter().chain(u.wd.iter()) { rec.bump(match nl.safi { hr::Safi::U => "h.nlri.unicast", hr::Safi::M => "h.nlri.multicast", hr::Safi::X => "h.nlri.unsupported-safi" }); }
+                    evs.push(hr::Ev::Upd(m, u));
+                }
+            }
+        }
+        Hist { limits, ingress, attrs, evs }
+    }
+}
+
 // ------------------------------------------------------------------ main
 
 fn store_more(fx: &RibQueryFixture, qp: Option<Pfx>) -> StoreMore {
@@ -596,6 +845,7 @@ fn replay_line(rt: &tokio::runtime::Runtime, rec: &mut Recorder, line: &str) -> 
 const W_COMMUNITY: &str = "L8,19|I1:65001|Ru,4/8/10,1,A,1,n1.n2,c1:2|W|P10.0.0.0/8|X4/8/10|S~|Qselect[community]=1:2";
 const W_LESSZERO: &str = "L8,19|I|Ru,4/0/0,1,A,1,n1,-;u,4/8/10,1,A,2,n1,-|W|P10.0.0.0/8|X4/8/10|S~|Qinclude=lessSpecifics";
 const W_MCAST: &str = "L8,19|I|Ru,4/8/10,1,A,1,n1,-;m,4/8/10,2,A,2,n2,-|W|P10.0.0.0/8|X4/8/10|S~|Q";
+const W_LESSSTOP: &str = "L8,19|I|Ru,4/8/10,1,A,1,n1,-|W;u4/16/2561|P10.1.1.0/24|X4/24/655617|S~|Qinclude=lessSpecifics";
 const W_MORE: &str = "L8,19|I|Ru,4/17/77326,1,A,1,n1,-;u,4/18/154655,2,A,2,n2,-|W|P151.7.0.0/17|X4/17/77326|S~|Qinclude=moreSpecifics";
 
 fn main() {
@@ -603,10 +853,18 @@ fn main() {
     let t0 = Instant::now();
     std::panic::set_hook(Box::new(|_| {}));
     let rt = tokio::runtime::Builder::new_current_thread().enable_all().build().unwrap();
-    let mut rec = Recorder::new("one case = one population (0-14 records over nested/sibling v4+v6 prefixes incl. /0 and host routes, 1-4 ingress ids, unicast+multicast stores, per-record and per-ingress withdrawals) inserted through the real Rib + one GET through the real PrefixesApi::process_request (documented parameters, random filters drawn from the population, plus a malformed stream); non-trivial = a 200 JSON answer with at least one entry in some section; distinct = distinct case lines");
+    let mut rec = Recorder::new("one case = one population (0-14 records over nested/sibling v4+v6 prefixes incl. /0 and host routes, 1-4 ingress ids, unicast+multicast stores, per-record and per-ingress withdrawals, record-less prefix slots) inserted through the real Rib, or (H lines) one history of BGP UPDATEs and session-level withdrawals fed through the real BGP update handler and RibUnitRunner::process_update, + one GET through the real PrefixesApi::process_request (documented parameters, random filters drawn from the population, plus a malformed stream); non-trivial = a 200 JSON answer with at least one entry in some section; distinct = distinct case lines");
+
+    // RIB-side semantics of this tree (C01 / C03 defect sites), seen through HTTP; they select the
+    // `overlap` / `flap` flags of the composed model and of the H stream's expected population.
+    let sem = RibSem { overlap_withdraws: witness_active(&rt, W_H_OVERLAP) == Some(false), sticky_down: witness_active(&rt, W_H_FLAP) == Some(false) };
 
     if let Some(path) = &args.replay {
-        for line in verif_harness::replay_cases(path) { replay_line(&rt, &mut rec, &line); }
+        for line in verif_harness::replay_cases(path) {
+            if line.starts_with('H') { replay_h_line(&rt, &mut rec, &line, sem); } else { replay_line(&rt, &mut rec, &line); }
+        }
+        rec.variant("overlap", if sem.overlap_withdraws { "as-written" } else { "repaired" });
+        rec.variant("flap", if sem.sticky_down { "as-written" } else { "repaired" });
         rec.finish(&args, t0.elapsed().as_secs_f64());
         return;
     }
@@ -622,10 +880,18 @@ fn main() {
     rec.variant("lesszero", if has(&o, 1, 1) { "repaired" } else { adm |= 2; "as-written" });
     let o = replay_line(&rt, &mut rec, W_MCAST);
     rec.variant("mcast", if has(&o, 2, 0) { "repaired" } else { adm |= 4; "as-written" });
+    let o = replay_line(&rt, &mut rec, W_LESSSTOP);
+    rec.variant("lessstop", if has(&o, 1, 1) { "repaired" } else { adm |= 8; "as-written" });
     ADMISSIBLE.store(adm, std::sync::atomic::Ordering::Relaxed);
     // the store reports 151.7.128.0/18 (a child of the sibling /17) as a more-specific of 151.7.0.0/17
     let o = replay_line(&rt, &mut rec, W_MORE);
     rec.variant("more", if o.is_some_and(|(_, sm)| sm.0.is_empty() && sm.1.is_empty()) { "contract" } else { "as-observed" });
+
+    rec.variant("overlap", if sem.overlap_withdraws { "as-written" } else { "repaired" });
+    rec.variant("flap", if sem.sticky_down { "as-written" } else { "repaired" });
+    replay_h_line(&rt, &mut rec, W_H_OVERLAP, sem);
+    replay_h_line(&rt, &mut rec, W_H_FLAP, sem);
+    replay_h_line(&rt, &mut rec, W_H_LESSSTOP, sem);
 
     // probe: does this build of the store accept IPv6 / short IPv4 prefixes?
     let probe = |p: Pfx| { let f = RibQueryFixture::new(API, 0, 0); std::panic::catch_unwind(std::panic::AssertUnwindSafe(|| f.insert(p.to_inetnum(), false, 1, true, vec![], 0))).is_ok() };
@@ -639,6 +905,7 @@ fn main() {
         rec.bump("populations");
         if pop.recs.iter().any(|r| r.mc) { rec.bump("populations.with-multicast"); }
         if pop.recs.iter().any(|r| r.pfx.len == 0) { rec.bump("populations.with-default-route"); }
+        if !pop.empties.is_empty() { rec.bump("populations.with-record-less-slot"); }
         for _ in 0..nq {
             let qp = g.query_prefix(&pop, &bases);
             let (path, query) = match g.rng.below(10) {
@@ -647,6 +914,25 @@ fn main() {
                 _ => (qp.text(), g.query(&pop)),
             };
             run_case(&rt, &mut rec, &pop, &fx, &path, &query);
+        }
+    }
+
+    // H stream: histories through the real BGP update handler + RIB unit, then HTTP (see above)
+    let (nh, nhq) = if args.thorough { (6000, 5) } else { (1000, 4) };
+    let pool: Vec<Pfx> = hr::pool().iter().filter(|p| !(narrow && p.v6)).map(conv_pfx).collect();
+    for _ in 0..nh {
+        let h = g.history(&mut rec);
+        let mut notes = vec![];
+        let (_rib, fx) = match h.build(&mut notes) { Ok(x) => x, Err(e) => { rec.bump(&format!("h.build-error.{}", e.split_whitespace().next().unwrap_or("?"))); continue } };
+        rec.bump("h.histories");
+        for n in &notes { rec.bump(&format!("h.note.{n}")); }
+        let exp = h.expected(sem);
+        if exp.recs.iter().any(|r| r.mc) { rec.bump("h.histories.with-multicast-route"); }
+        if !exp.empties.is_empty() { rec.bump("h.histories.with-record-less-slot"); }
+        for _ in 0..nhq {
+            let qp = if !exp.recs.is_empty() && g.rng.chance(2, 3) { g.rng.pick(&exp.recs).pfx } else { *g.rng.pick(&pool) };
+            let query = if g.rng.chance(1, 12) { g.junk_query(&exp) } else { g.query(&exp) };
+            run_h_case(&rt, &mut rec, &h, &exp, &fx, &qp.text(), &query);
         }
     }
     rec.finish(&args, t0.elapsed().as_secs_f64());
